@@ -667,6 +667,37 @@ func U%[1]d() {
 `, u, fields.String(), it, k1, k2, an, lit.String()))
 		return p
 	}},
+	{"range_string_bytes", false, func(g *G, u int) string {
+		// range over strings built from drawn fragments, including truncated and invalid UTF-8 sequences at the end
+		p := g.pkgOrMain()
+		frags := []string{"a", "é", "世", "😀", "\\xf0\\x9f\\x98", "\\xf0\\x9f", "\\xf0", "\\xe4\\xb8", "\\xe4", "\\xc3", "\\xff", "\\x80", "\\xed\\xa0\\x80", "\\xc0\\x80", "\\x00", "z"}
+		var lit strings.Builder
+		for i, n := 0, g.n(1, 6, "nfrag"); i < n; i++ {
+			lit.WriteString(g.pick(frags, "frag"))
+		}
+		g.add(p, fmt.Sprintf(`func U%[1]d() {
+	s := "%[2]s"
+	n, idx, sum := 0, 0, 0
+	for i, r := range s {
+		n++
+		idx += i
+		sum += int(r)
+	}
+	m := 0
+	for range s {
+		m++
+	}
+	rs := []rune(s)
+	last := rune(-1)
+	if len(rs) > 0 {
+		last = rs[len(rs)-1]
+	}
+	back := string(rs)
+	println("#%[1]d", len(s), n, m, idx, sum, len(rs), last, len(back), back == s)
+}
+`, u, lit.String()))
+		return p
+	}},
 	{"structs_arrays_copy", false, func(g *G, u int) string {
 		p := g.pkgOrMain()
 		a := g.n(1, 9, "a")
